@@ -87,7 +87,10 @@ func (c09) Gen(rng *rand.Rand, tier string, k int) *Case {
 	var w int
 	if rng.Intn(2) == 0 {
 		c = genIndCase(rng, tier, true)
-		w = makeInd(indByName[c.Entity], c.Cfg, c.Scale).Idle
+		if rng.Intn(30) == 0 {
+			c.Entity, c.Cfg, c.Scale = UnsetIndicators[rng.Intn(len(UnsetIndicators))].Name, nil, 0
+		}
+		w = max(0, makeInd(indByName[c.Entity], c.Cfg, c.Scale).Idle)
 	} else {
 		c = genStratCase(rng, tier)
 		w = max(0, measureWarmup(c))
@@ -197,6 +200,8 @@ func (c09) Run(c *Case, st *Stats) []Violation {
 		vs = append(vs, Violation{Prop: "C09", Entity: entity, Kind: kind, Regime: c.Mode, Detail: desc + detail, Decisions: simOut.Decisions})
 	}
 	sequential := c.Mode == "sequential"
+	skipIdleDecl = c.Seed%2 == 0
+	defer func() { skipIdleDecl = false }()
 	opts := SimOpts{Policy: c.Policy, Record: c.Record, MaxSteps: 6_000_000}
 	switch c.Family {
 	case "ind":
